@@ -23,7 +23,7 @@ import (
 const (
 	Main      = -1
 	maxTasks  = 16
-	maxDec    = 1 << 18
+	maxDec    = 1 << 20
 	StepCap   = 200_000_000
 	spinLimit = 50_000
 )
@@ -41,7 +41,12 @@ type Decision struct {
 // Policy decides pre-emptions in generation mode.
 type Policy struct {
 	PHot, PCold float64
-	PCT         []uint64 // if non-empty: pre-empt exactly at these global yield ordinals, nothing else
+	// PSync: probability of a switch at a statement that performs a sync or
+	// sync/atomic operation (and after an atomic operation inside a statement).
+	// With PHot = PCold = 0 this gives coarse schedules whose switches sit
+	// exactly at the synchronisation operations.
+	PSync float64
+	PCT   []uint64 // if non-empty: pre-empt exactly at these global yield ordinals, nothing else
 }
 
 type gate struct {
@@ -83,6 +88,7 @@ var st struct {
 	deadlock    bool
 	stepCap     bool
 	hot         []bool
+	syncSite    []bool
 	// reach probes
 	switches, gateBlocks, preemptInClosure, gateContention, gateCalls uint64
 	switchHash                                                        uint64
@@ -251,6 +257,9 @@ func yieldHook(site int) {
 			p := st.policy.PCold
 			if st.hot[site] {
 				p = st.policy.PHot
+			}
+			if st.syncSite[site] && st.policy.PSync > p {
+				p = st.policy.PSync
 			}
 			want = p > 0 && rndFloat() < p
 		}
@@ -466,8 +475,10 @@ func setup(n int, seed uint64, pol Policy, replay [][]Decision) {
 	st.nSites = len(field.VerifSites)
 	st.counts = make([]uint32, n*st.nSites)
 	st.hot = make([]bool, st.nSites)
+	st.syncSite = make([]bool, st.nSites)
 	for i, s := range field.VerifSites {
 		st.hot[i] = s.Hot
+		st.syncSite[i] = s.Sync
 	}
 	st.total = 0
 	st.gates = st.gates[:0]
